@@ -10,8 +10,10 @@
       field 0      [M] or [E]
       grid fields  [qr,NAME,NAD,PROPS,REST] [qb,NAME,VOL,ROCK,CEN] [qc,A,B,D0,D1,AREA,DIR,COS]  (strings hex-encoded)
       [M]: last field [mi;ATM;FR,...;NAME,...;D,...;A,...]  -> dump of the grid after minc, or [E:<exception>]
-      [E]: grid fields of self, the field [sub], grid fields of the sub-grid (same heap), last field
-           [em,HOST,INNER,D0,D1,AREA,DIR,COS]  -> [None] or the dump of the result, then [|] and the dump of self *)
+      [E]: grid fields of self, the field [sub], grid fields of the sub-grid (same heap), the field [loose], grid fields
+           of block objects outside both grids, last field [em,HOST,INNER,D0,D1,AREA,DIR,COS,HS,IS] (HS = s|l: the host
+           object is self's block or the loose one; IS = u|l likewise for the connecting block)
+           -> [None] or the dump of the result, then [|] and the dump of self *)
 From Coq Require Import Ascii String List Bool PArith NArith ZArith QArith FMapPositive.
 From PTBase Require Import Exn PyStr PyNum PyVal Wire.
 From P Require Import Assoc GridPhys MincModel MincBuild.
@@ -141,10 +143,10 @@ Fixpoint split_last (l : list str) : option (list str * str) :=
   | [a] => Some ([], a)
   | a :: r => match split_last r with Some (i, z) => Some (a :: i, z) | None => None end
   end.
-Fixpoint split_at_sub (l : list str) : list str * list str :=
+Fixpoint split_at (mark : str) (l : list str) : list str * list str :=
   match l with
   | [] => ([], [])
-  | a :: r => if str_eqb a (s2l "sub") then ([], r) else let p := split_at_sub r in (a :: fst p, snd p)
+  | a :: r => if str_eqb a mark then ([], r) else let p := split_at mark r in (a :: fst p, snd p)
   end.
 
 Definition run_minc (fs : list str) : str :=
@@ -168,34 +170,43 @@ Definition run_minc (fs : list str) : str :=
   | None => s2l "BADCASE"
   end.
 
+(** the connection handed to embed joins a host block object and a connecting block object: the grids' own
+    blocks ([s] / [u]) or equal-named objects that belong to neither grid ([l]: built in the [loose] part, e.g.
+    the blocks of an earlier in-memory instance of a grid that has since been written and read back) *)
 Definition run_embed (fs : list str) : str :=
   match split_last fs with
   | Some (gfs, ef) =>
-      let p := split_at_sub gfs in
-      match parse_gops (fst p), parse_gops (snd p), split_c comma_c ef with
-      | Some ops1, Some ops2, [_; host; inner; e0; e1; ea; ed; ec] =>
+      let p := split_at (s2l "sub") gfs in
+      let q := split_at (s2l "loose") (snd p) in
+      match parse_gops (fst p), parse_gops (fst q), parse_gops (snd q), split_c comma_c ef with
+      | Some ops1, Some ops2, Some ops3, [_; host; inner; e0; e1; ea; ed; ec; hs; is_] =>
           match grun heap0 tabs0 ops1 with
           | Raise e => s2l "E0:" ++ show_exn e
           | Ok s1 =>
               match grun (fst s1) tabs0 ops2 with
               | Raise e => s2l "E0:" ++ show_exn e
               | Ok s2 =>
-                  let self := snd s1 in let sub := snd s2 in let h2 := fst s2 in
-                  match tbget self (unhex host), tbget sub (unhex inner) with
-                  | Some i0, Some i1 =>
-                      let cj := hnext h2 in
-                      let h3 := alloc_con h2 {| o_b0 := i0; o_b1 := i1; o_d0 := q_of_str e0; o_d1 := q_of_str e1; o_area := q_of_str ea;
-                                                o_dir := unhex ed; o_cos := unhex ec |} in
-                      match embed h3 self sub cj with
-                      | Raise e => s2l "E:" ++ show_exn e
-                      | Ok (h4, None) => s2l "None|" ++ qobserve h4 self
-                      | Ok (h4, Some r) => qobserve h4 r ++ s2l "|" ++ qobserve h4 self
+                  match grun (fst s2) tabs0 ops3 with
+                  | Raise e => s2l "E0:" ++ show_exn e
+                  | Ok s3 =>
+                      let self := snd s1 in let sub := snd s2 in let loose := snd s3 in let h2 := fst s3 in
+                      match tbget (if str_eqb hs (s2l "l") then loose else self) (unhex host),
+                            tbget (if str_eqb is_ (s2l "l") then loose else sub) (unhex inner) with
+                      | Some i0, Some i1 =>
+                          let cj := hnext h2 in
+                          let h3 := alloc_con h2 {| o_b0 := i0; o_b1 := i1; o_d0 := q_of_str e0; o_d1 := q_of_str e1; o_area := q_of_str ea;
+                                                    o_dir := unhex ed; o_cos := unhex ec |} in
+                          match embed h3 self sub cj with
+                          | Raise e => s2l "E:" ++ show_exn e
+                          | Ok (h4, None) => s2l "None|" ++ qobserve h4 self
+                          | Ok (h4, Some r) => qobserve h4 r ++ s2l "|" ++ qobserve h4 self
+                          end
+                      | _, _ => s2l "BADCASE"
                       end
-                  | _, _ => s2l "BADCASE"
                   end
               end
           end
-      | _, _, _ => s2l "BADCASE"
+      | _, _, _, _ => s2l "BADCASE"
       end
   | None => s2l "BADCASE"
   end.
